@@ -607,6 +607,8 @@ type NodeOpts struct {
 	// Decoy, when set, makes the factory build (and close) another instance with these options first: libocr
 	// calls NewReportingPlugin on ONE factory for every config, so nothing may carry over from instance to instance
 	Decoy *NodeOpts
+	// AfterDecoy, when set, runs after the decoy instance has been closed and before the real one is created
+	AfterDecoy func()
 }
 
 var quietLogger = log.New(io.Discard, "", 0)
@@ -638,6 +640,9 @@ func NewNodeWith(t testing.TB, o NodeOpts, events types.TransmitEventProvider) *
 			time.Sleep(1500 * time.Millisecond) // virtual: every service of the decoy reaches its running state
 			dp.Close()
 			time.Sleep(11 * time.Second)
+		}
+		if o.AfterDecoy != nil {
+			o.AfterDecoy()
 		}
 	}
 	oc := o.OffchainConfig
